@@ -681,10 +681,14 @@ class Visitor:
         """
         type_guarded = self.type_guarded
         guard = False
-        if isinstance(node.parent, (ast.Module, ast.ClassDef)):  # type: ignore[attr-defined]
-            condition = safe_get_condition(node.test, parent=self.current, log_level=None)
-            if str(condition) in {"typing.TYPE_CHECKING", "TYPE_CHECKING"}:
-                guard = True
+        # The guard is recognized wherever the `if` stands (directly in the module or class,
+        # or nested in another block), and through the name `TYPE_CHECKING` was imported under.
+        condition = safe_get_condition(node.test, parent=self.current, log_level=None)
+        spellings = {str(condition)}
+        with suppress(Exception):
+            spellings.add(condition.canonical_path)  # type: ignore[union-attr]
+        if spellings & {"typing.TYPE_CHECKING", "TYPE_CHECKING", "typing_extensions.TYPE_CHECKING"}:
+            guard = True
         for child in ast_children(node):
             # Only the body is type-guarded: the `else` branch runs at runtime.
             self.type_guarded = type_guarded or (guard and any(child is stmt for stmt in node.body))
